@@ -99,6 +99,19 @@ def check_applications(out, name, make, c, M, N, cls='', tol=None, adjoint_cls=N
         except Exception as ex:
             out.v('exception %s %s.%s arg=%s %s' % (type(ex).__name__, name, how, arg, cls), d=inp, error=repr(ex))
             break
+    # the caller owns the result: modifying it in place must not change what the operator returns next time
+    stage('%s.dot (result modified in place, applied again)' % name)
+    try:
+        y1 = op.dot(x)
+        # (an identity may hand back its argument, as scipy's own IdentityOperator does: then there is nothing to own)
+        if isinstance(y1, np.ndarray) and y1.flags.writeable and y1.size and not np.shares_memory(y1, x):
+            y1 += 1.0
+            y2 = op.dot(x)
+            if not same(y2, Y, tol):
+                out.v('%s.dot returns an array it keeps using (second application differs after the first result was modified) arg=%s %s'
+                      % (name, arg, cls), d=inp, expected=c['Y'], got=np.asarray(y2).tolist())
+    except Exception as ex:
+        out.v('exception %s %s.dot applied twice arg=%s %s' % (type(ex).__name__, name, arg, cls), d=inp, error=repr(ex))
     # the same product with an INTEGER-typed argument (integer-valued vectors are what index computations and counting
     # arguments produce); the operator's values are real, so the result must not be computed in integer arithmetic
     if x.size and np.all(x == np.round(x)):
